@@ -534,7 +534,11 @@ bool Instance::configure_tx_txin() {
                 fprintf(stderr, "witness program unexpected size: %zu (expected %zu)\n", program.size(), WITNESS_V1_TAPROOT_SIZE);
                 return false;
             }
-            // TODO: check if p2sh
+            if (scriptSig.size() > 0) {
+                // BIP341: only native version 1 outputs are taproot; a version 1 program inside P2SH stays unencumbered
+                fprintf(stderr, "a P2SH-wrapped version 1 witness program is not a taproot output; it cannot be debugged as one\n");
+                return false;
+            }
             if (stack.size() == 0) {
                 fprintf(stderr, "error: witness program was passed an empty witness\n");
                 return false;
